@@ -749,22 +749,7 @@ def camp_c12(rnd, tier):
     extra = 2 if tier == "quick" else 3
     kinds = rotate(TREE_KINDS, rnd)
     types = rotate(UTYPES, rnd)
-    # double-ended iterators of the trees: every call word over {next, next_back, len}
-    for n in range(0, maxn + 1):
-        ks = TREE_KINDS if tier == "thorough" or n <= 2 else [next(kinds) for _ in range(4)]
-        for kind in ks:
-            ty = next(types)
-            vals = rand_seq(rnd, n, [0, 1, 2, min(tmax(ty), 300), 7])
-            s = Seqn.from_values(vals)
-            b.reset()
-            o = b.newt(kind, ty, "from_vec", s)
-            ws = words("nbl", n + extra)
-            # only maximal words are needed: a history is a prefix of a longer one
-            ws = [w for w in ws if len(w) == n + extra]
-            for w in ws:
-                b.ith(o, rnd.choice(["iter", "iter", "ref_into_iter"]), w)
-            for w in rnd.sample(ws, min(len(ws), 30)):
-                b.ith(o, "into_iter", w, keep=1)
+    # (every call word over {next, next_back, len} on short sequences is enumerated by TLC: Gen_it_*.cfg)
     # longer sequences, random histories
     for kind in TREE_KINDS:
         ty = next(types)
@@ -787,7 +772,7 @@ def camp_c12(rnd, tier):
         bvm = b.newb("BVM", "bools", s)
         da = b.newb("DA1", "new", s)
         ws = [w for w in words("nl", min(n, 4) + extra) if len(w) == min(n, 4) + extra] if n <= 4 else \
-             ["".join(rnd.choice("nnl") for _ in range(n + 6)) for _ in range(6)] + ["n" * (n + 3) + "lnl"]
+             ["".join(rnd.choice("nnl") for _ in range(n + 6)) for _ in range(2)] + ["n" * (n + 3) + "lnl"]
         for w in ws:
             b.ith(bv, "iter", w)
             b.ith(bvm, "iter", w)
@@ -799,8 +784,9 @@ def camp_c12(rnd, tier):
                 b.ith(o, m, "n" * (n + 3))
             for p in sorted(set([0, 1, n // 2, n - 1, n, n + 1, n + 70, -1])):
                 if p >= -1:
-                    b.ith(o, "ones_with_pos", "n" * (n + 3), pos=p)
-                    b.ith(o, "zeros_with_pos", "n" * (n + 3), pos=p)
+                    k = (n + 3) if n <= 130 else rnd.choice([5, 70])
+                    b.ith(o, "ones_with_pos", "n" * k, pos=p)
+                    b.ith(o, "zeros_with_pos", "n" * k, pos=p)
         quads = rand_seq(rnd, n, [0, 1, 2, 3])
         sq = Seqn.from_values(quads)
         for kind in ("QV", "RSQ256", "RSQ512"):
